@@ -154,6 +154,9 @@ func cmdReplay(args []string) int {
 			}
 		}
 	}
+	if rf.EngineOnly {
+		return engineReplay(repo, verif, unit, patches, &rf)
+	}
 	// entries: every VH_/VT_/VF_ function in the harness files
 	var entries []string
 	for _, h := range unit.HarnessFiles {
@@ -185,5 +188,46 @@ func cmdReplay(args []string) int {
 		return 1
 	}
 	fmt.Printf("NOT-REPRODUCED property=%s entry=%s: %s\n", rf.Property, rf.Entry, why)
+	return 0
+}
+
+// engineReplay re-executes exactly the recorded path in the engine (for
+// counterexamples that are schedules or window violations and cannot be
+// forced natively).
+func engineReplay(repo, verif string, unit *CheckSpec, patches []SourcePatch, rf *replayFile) int {
+	ov, err := buildOverlay(repo, verif, unit, patches, false)
+	if err != nil {
+		fmt.Fprintln(os.Stderr, err)
+		return 2
+	}
+	prog, err := loadProgram(repo, unit, ov)
+	if err != nil {
+		fmt.Fprintln(os.Stderr, err)
+		return 2
+	}
+	cases := map[string][]int{}
+	for k, v := range rf.Cases {
+		cases[k] = []int{v}
+	}
+	jobs, err := expandJobs(prog, []JobSpec{{Entry: rf.Entry, Cases: cases, MaxSteps: 400000000}})
+	if err != nil || len(jobs) != 1 {
+		fmt.Fprintln(os.Stderr, "cannot rebuild the job:", err)
+		return 2
+	}
+	r := newRun(prog, unit, "z3", 60*time.Second)
+	tctx := NewTermCtx()
+	sv, err := NewSolver("z3", tctx, 60*time.Second)
+	if err != nil {
+		fmt.Fprintln(os.Stderr, err)
+		return 2
+	}
+	defer sv.Close()
+	w := &Worker{prog: prog, tctx: tctx, solver: sv, run: r}
+	res := w.runPath(&workItem{job: jobs[0], prefix: rf.Log})
+	if res.kind == outViolation && res.viol != nil {
+		fmt.Printf("REPRODUCED (engine replay) property=%s entry=%s: %s: %s [%s]\n", rf.Property, rf.Entry, res.viol.Kind, res.viol.Label, res.viol.Detail)
+		return 1
+	}
+	fmt.Printf("NOT-REPRODUCED (engine replay) property=%s entry=%s: outcome %s %s\n", rf.Property, rf.Entry, res.kind, firstLine(res.msg))
 	return 0
 }
